@@ -63,6 +63,8 @@ def chunks(tier, seed):
         out.append({"kind": "seq", "n": nq // (8 if tier == "quick" else 32), "key": "seq%d" % k})
     out.append({"kind": "opobj", "key": "opobj", "reps": 3 if tier == "quick" else 20})
     out.append({"kind": "minmax", "key": "minmax", "n": 600 if tier == "quick" else 8000})
+    for k in range(2):
+        out.append({"kind": "divzero", "key": "divzero%d" % k, "n": 300 if tier == "quick" else 4000})
     return out
 
 
@@ -441,6 +443,18 @@ def _cases(chunk):
                 v[0] = float("nan")
             yield {"kind": "minmax", "v": v, "fn": rng.choice(["MIN", "MAX"]),
                    "route": rng.choice(["expr", "expr", "opobj", "sub"])}
+    elif kind == "divzero":
+        # feature / feature where the denominator holds zeros (also 0/0): the value there is undefined and not judged,
+        # but the evaluation must return, and every OTHER observation must hold the ordinary quotient
+        for i in range(chunk["n"]):
+            n = rng.choice([2, 3, 4, 5, 6])
+            a = [rng.choice([0.0, 0.0, 1.0, -2.0, 3.0, 0.5]) for _ in range(n)]
+            b = [rng.choice([0.0, 0.0, 1.0, -2.0, 0.5]) for _ in range(n)]
+            if i % 3 == 0:
+                k = rng.randrange(n)
+                a[k] = b[k] = 0.0
+            yield {"kind": "divzero", "a": a, "b": b, "expr": rng.choice(["a/b", "a/a", "b/b", "(a+b)/a", "c=a/b", "a/b+1"]),
+                   "route": rng.choice(["expr", "expr", "opobj"])}
     elif kind == "opobj":
         for rep in range(chunk["reps"]):
             for ei, feat in enumerate(ENVS):
@@ -1009,9 +1023,47 @@ def run_minmax(case, ctx):
     return held(sig, True, cls)
 
 
+def run_divzero(case, ctx):
+    from tracklib.core.operators import Operator
+    a, b, ex, route = case["a"], case["b"], case["expr"], case["route"]
+    n = len(a)
+    tr = gen.make_track([(float(i), 0.0, 0.0) for i in range(n)], times_ms=[86400000 + 1000 * i for i in range(n)])
+    tr.createAnalyticalFeature("a", list(a))
+    tr.createAnalyticalFeature("b", list(b))
+    num, den, plus = {"a/b": (a, b, 0), "a/a": (a, a, 0), "b/b": (b, b, 0), "c=a/b": (a, b, 0), "a/b+1": (a, b, 1),
+                      "(a+b)/a": ([x + y for x, y in zip(a, b)], a, 0)}[ex]
+    sig = ("divzero", ex, route, tuple(a), tuple(b))
+    cls = ["division_by_a_feature_holding_zeros"]
+    if route == "opobj" and ex in ("a/b", "a/a", "b/b"):
+        l, r = ex.split("/")
+        got = M.call(tr.operate, Operator.DIVIDER, l, r, "q")
+        if not M.is_raised(got):
+            got = M.call(tr.getAnalyticalFeature, "q")
+    else:
+        got = M.call(tr.operate, ex)
+        if not M.is_raised(got) and ex.startswith("c="):
+            got = M.call(tr.getAnalyticalFeature, "c")
+    ctx.monitor("divzero.defined_points_right_and_no_failure")
+    if M.is_raised(got):
+        return violated({"what": "dividing by a feature that holds zeros raised (the value is undefined THERE; the "
+                                 "evaluation must return and the other observations must hold the quotient)",
+                         "expression": ex, "route": route, "a": a, "b": b, "raised": got}, sig, True, cls)
+    lst = list(got)
+    for i in range(n):
+        if den[i] != 0:
+            exp = num[i] / den[i] + plus
+            if len(lst) != n or not M.feq(lst[i], exp, 1e-12, 1e-15):
+                return violated({"what": "quotient wrong at an observation whose denominator is not zero",
+                                 "expression": ex, "route": route, "a": a, "b": b, "index": i, "got": lst, "expected": exp},
+                                sig, True, cls)
+    return held(sig, any(d == 0 for d in den) and any(d != 0 for d in den), cls)
+
+
 def run_case(case, ctx):
     if case["kind"] in ("tree", "seq"):
         return run_tree(case, ctx)
+    if case["kind"] == "divzero":
+        return run_divzero(case, ctx)
     if case["kind"] == "minmax":
         return run_minmax(case, ctx)
     return run_opobj(case, ctx)
@@ -1023,7 +1075,7 @@ def classify(case, witness):
 
 # floors for the call-history workloads added in session 3 (a run in which they were silently skipped is inconclusive)
 _floors_base = floors
-_FLOORS_EXTRA = {'classes': {'nan_in_minmax': 500, 'repeated_function_term': 1000, 'externals_dictionary': 500, 'realistic_magnitudes': 800, 'related_track_must_stay_untouched': 1000,
+_FLOORS_EXTRA = {'classes': {'nan_in_minmax': 500, 'division_by_a_feature_holding_zeros': 500, 'repeated_function_term': 1000, 'externals_dictionary': 500, 'realistic_magnitudes': 800, 'related_track_must_stay_untouched': 1000,
                              'less_usual_feature_names': 5000, 'copy_taken_after_the_first_statement': 800, 'track_of_hundreds_of_observations': 300}}
 
 
